@@ -237,7 +237,7 @@ func (fr *Frame) bytesWrite(st *State, w *Sc, s *SliceV, total string, pad strin
 	src := sel(hM, s.Base)
 	fromSlice := c.define("bws.m", sBV(64), ite("(bvslt "+s.Len+" "+total+")", s.Len, total))
 	// prefix preserved; on success the appended bytes are the slice then padding
-	r.assume(st, eq(r.seqOf(sBV(8), nd, bvLit(0, 64), n0), r.seqOf(sBV(8), old, bvLit(0, 64), n0)))
+	r.assume(st, fmt.Sprintf("(forall ((k!s (_ BitVec 64))) (! (=> (and (bvsle #x0000000000000000 k!s) (bvslt k!s %s)) (= (select %s k!s) (select %s k!s))) :pattern ((select %s k!s))))", n0, nd, old, nd))
 	r.assume(st, and("(bvsle #x0000000000000000 "+n0+")", "(bvslt "+n0+" #x0001000000000000)"))
 	r.assume(st, implies(ok, eq(r.seqOf(sBV(8), nd, n0, fromSlice), r.seqOf(sBV(8), src, s.Off, fromSlice))))
 	r.assume(st, implies(ok, fmt.Sprintf("(forall ((k!p (_ BitVec 64))) (! (=> (and (bvsle (bvadd %s %s) k!p) (bvslt k!p (bvadd %s %s))) (= (select %s k!p) %s)) :pattern ((select %s k!p))))", n0, fromSlice, n0, total, nd, pad, nd)))
